@@ -4,7 +4,9 @@ from tools.lv import hexs
 NAMES = [None, "", " ", "Joe", "Joe Q. Public", "  padded  ", "a  b", "a\tb", "Mary Smith", "Joe, Q.", "\"quoted\"", "back\\slash", "Backup C:\\", "\\", "<angle>",
          "semi;colon", "at@sign", "(paren)", "Ünïcödé", "日本語", "😀 smile", "a\x00b", "a\rb", "a\nb", "a\r\nb", "\x7f", "\x01ctl", "9", "x9y",
          "Dr. O'Neil", "a.b", "name with = and ?", "=?utf-8?b?aGk=?=", "x" * 100, "é" * 40, "tab\tinside", "trailing ", " leading",
-         "comma, inside", "dot.", ".", "a:b", "[bracket]", "NBSP\u00a0x", "LS\u2028x"]
+         "comma, inside", "dot.", ".", "a:b", "[bracket]", "NBSP\u00a0x", "LS\u2028x",
+         # names the caller has already wrapped in double quotes (round 7: C01/m19 wrote them as they are)
+         "\"x\\\"", "\"a\rb\"", "\"a\x00b\"", "\"a b\"", "\"a\\\\b\"", "\"", "\"\"", "\"a\" b", "Bob ", " Bob", "\tBob\t"]
 ADDRS = ["a@b.c", "user@example.com", "first.last@example.org", "a+b@x.y", "-x@o.c", "\"q\"@example.org", "\"a b\"@example.com", "\"a\\\"b\"@e.org",
          "\"<x>\"@e.org", "用户@例え.jp", "üser@example.com", "u@[127.0.0.1]", "u@[IPv6:::1]", "a@bücher.de", "x@1.1.1.1", "a!b@c.d", "a@b-c.d", "\"a@b\"@c.d",
          "\"a  b\"@c.d", "a'b@c.d", "root@localhost", "a@b"]
